@@ -306,10 +306,11 @@ def cli_case(ctx, impl, case, number, layout, as_subprocess):
 	ctx.case(('cli', layout, case['corrupted']), {'mode': mode, 'layout': layout, 'status': status, 'operator': case['operator'], 'detail': detail})
 	ctx.count(f'cli:{mode}:exit{status}')
 	ctx.count(f'cli-layout:{layout}')
-	if 0 == status or os.path.exists(output):
+	# status 1 = the text was rejected; 0 and 2 (the verdict of the validator) both mean that the parser accepted the ill-formed text
+	if 1 != status or os.path.exists(output):
 		ctx.fail('property', (
-			f'command line: a corrupted file reached through imports (layout {layout}) gave exit status {status}, output file written: '
-			f'{os.path.exists(output)} (operator {case["operator"]})'), dict(case, mode=mode, layout=layout))
+			f'command line: a corrupted file reached through imports (layout {layout}) gave exit status {status} (1 = rejected; 0 / 2 = parsed, '
+			f'then validated), output file written: {os.path.exists(output)} (operator {case["operator"]})'), dict(case, mode=mode, layout=layout))
 
 
 def documents(ctx):
